@@ -65,10 +65,11 @@ int evbuffer_add(struct evbuffer *b, const void *data, size_t n)
 }
 int evbuffer_add_vprintf(struct evbuffer *b, const char *fmt, va_list ap)
 {
-	char tmp[VP_FLAT_CAP + 1];
-	int n = vsnprintf(tmp, sizeof(tmp), fmt, ap);
-	VP_ASSERT(n >= 0 && (size_t)n <= VP_FLAT_CAP, "http_flatbuf: formatted text exceeds VP_FLAT_CAP");
-	evbuffer_add(b, tmp, (size_t)n);
+	/* format in place (the terminating NUL lands behind the content and is not part of it) */
+	size_t room = VP_FLAT_CAP - b->end;
+	int n = vsnprintf((char *)b->d + b->end, room, fmt, ap);
+	VP_ASSERT(n >= 0 && (size_t)n < room, "http_flatbuf: formatted text exceeds VP_FLAT_CAP (harness bound)");
+	b->end += (size_t)n;
 	return n;
 }
 int evbuffer_add_printf(struct evbuffer *b, const char *fmt, ...)
